@@ -28,8 +28,9 @@ def install_probes():
     if getattr(qartod, "vprobe_test", None) is not None and getattr(qartod.vprobe_test, "_verif", False):
         return
 
-    def vprobe_test(inp, tinp=None, zinp=None, lat=None, lon=None, code=1):
-        """Harness probe: records what it receives, returns `code` for every row."""
+    def vprobe_test(inp, tinp=None, zinp=None, lat=None, lon=None, code=1, plain=False):
+        """Harness probe: records what it receives, returns `code` for every row (as a masked uint8 array like most
+        library tests, or with plain=True as a plain integer ndarray like flat_line_test / speed_test)."""
         rec = dict(code=code)
         for k, v in (("inp", inp), ("tinp", tinp), ("zinp", zinp), ("lat", lat), ("lon", lon)):
             if v is None:
@@ -43,6 +44,8 @@ def install_probes():
                 else:
                     rec[k] = [float(x) for x in a.tolist()]
         PROBE_LOG.append(rec)
+        if plain:
+            return np.full(np.shape(np.asarray(inp)), code)
         return np.ma.MaskedArray(np.full(np.shape(np.asarray(inp)), code, dtype="uint8"))
 
     def vraise_test(inp, boom=1):
@@ -186,6 +189,10 @@ def run_frontend(fe, tab, config_dict):
             return list(NumpyStream(inp={k: cols[k] for k in measured}, **axes).run(cfg))
         if variant == "nd":
             return list(NumpyStream(inp=cols["v"], time=times, **axes).run(cfg))
+        if variant == "ma":
+            # the measured columns arrive as masked arrays (second row masked, a finite value underneath)
+            mk = lambda a: np.ma.MaskedArray(a, mask=[i == 1 for i in range(len(a))])
+            return list(NumpyStream(inp={k: mk(cols[k]) for k in measured}, time=times, **axes).run(cfg))
         return list(NumpyStream(inp={k: cols[k] for k in measured}, time=times, **axes).run(cfg))
     if kind in ("xarray", "netcdf"):
         if variant == "twodims":
